@@ -164,9 +164,117 @@ def break_decomp(rng, G, maps, nbrs):
     return nbrs, kind
 
 
+# ---------------------------------------------------------------------------------------------
+# (a') composite vector kinds: leaves (block size, mirror slot) in buffer order
+# ---------------------------------------------------------------------------------------------
+
+KINDS = {
+    "t2": [(1, 0), (2, 1)],                             # TupleVector<DV, DVB2>
+    "t3": [(2, 0), (1, 1), (3, 2)],                     # TupleVector<DVB2, DV, DVB3>
+    "t4": [(1, 0), (2, 1), (1, 2), (1, 3)],             # TupleVector<DV, DVB2, DV, DV>
+    "p3": [(1, 0), (1, 0), (1, 0)],                     # PowerVector<DV, 3> (one mirror for all components)
+    "nest": [(2, 0), (2, 0), (1, 1), (3, 2), (1, 3)],   # Tuple<Power<DVB2,2>, Tuple<DV,DVB3>, DV>
+}
+
+
+def kind_slots(kind):
+    return 1 + max(s for _, s in KINDS[kind])
+
+
+def gen_cdecomp(rng, kind):
+    S = kind_slots(kind)
+    P = rng.choice([1, 2, 2, 3, 3, 4, 5, 6])
+    Gs, maps, mems = [], [], []
+    for s in range(S):
+        style = rng.choice(["disjoint", "chain", "star", "random", "random"])
+        _, mem = gen_membership(rng, style, P)
+        rng.shuffle(mem)
+        mems.append(mem)
+        Gs.append(len(mem))
+        ms = [[g for g in range(len(mem)) if r in mem[g]] for r in range(P)]
+        for m in ms:
+            if rng.random() < 0.7:
+                rng.shuffle(m)
+        maps.append(ms)
+    nbrs = [[] for _ in range(P)]
+    for r in range(P):
+        for q in range(r + 1, P):
+            shared = []
+            for s in range(S):
+                sh = [g for g in maps[s][r] if q in mems[s][g]]
+                if rng.random() < 0.6:
+                    rng.shuffle(sh)
+                shared.append(sh)
+            if not any(shared) and rng.random() > 0.03:
+                continue
+            nbrs[r].append((q, [[maps[s][r].index(g) for g in shared[s]] for s in range(S)]))
+            nbrs[q].append((r, [[maps[s][q].index(g) for g in shared[s]] for s in range(S)]))
+    for nb in nbrs:
+        rng.shuffle(nb)
+    return P, S, Gs, maps, nbrs
+
+
+def fmt_cdecomp(P, S, Gs, maps, nbrs):
+    parts = ["%d %d" % (P, S), " ".join(map(str, Gs))]
+    for r in range(P):
+        parts += [fmt_list(maps[s][r]) for s in range(S)]
+    for nb in nbrs:
+        parts.append(" ".join([str(len(nb))] + ["%d %s" % (q, " ".join(fmt_list(m) for m in ms)) for q, ms in nb]))
+    return " ".join(parts)
+
+
+def gen_composite_case(rng):
+    kind = rng.choice(["t2", "t3", "t3", "t4", "p3", "nest", "nest"])
+    leaves = KINDS[kind]
+    S = kind_slots(kind)
+    k = rng.random()
+    if k < 0.6:
+        P, S, Gs, maps, nbrs = gen_cdecomp(rng, kind)
+        D = fmt_cdecomp(P, S, Gs, maps, nbrs)
+        flat_nbrs = [[q for q, _ in nb] for nb in nbrs]
+        ords = " ".join(fmt_list(o) for o in gen_orders(rng, flat_nbrs))
+        if k < 0.45:
+            op = "csync0" if k < 0.28 else "csync1"
+            if op == "csync1" and rng.random() < 0.5:
+                X = [[[rand_rat(rng) for _ in range(bs)] for _ in range(Gs[sl])] for bs, sl in leaves]
+                vs = [[[X[l][g][c] for g in maps[sl][r] for c in range(bs)] for l, (bs, sl) in enumerate(leaves)] for r in range(P)]
+            else:
+                vs = [[[rand_rat(rng) for _ in range(len(maps[sl][r]) * bs)] for bs, sl in leaves] for r in range(P)]
+            return "%s %s %s %s %s" % (op, kind, D, ords, " ".join(fmt_rats(l) for v in vs for l in v))
+        X = [[[rand_rat(rng) for _ in range(bs)] for _ in range(Gs[sl])] for bs, sl in leaves]
+        Y = [[[rand_rat(rng) for _ in range(bs)] for _ in range(Gs[sl])] for bs, sl in leaves]
+        xs = [[[X[l][g][c] for g in maps[sl][r] for c in range(bs)] for l, (bs, sl) in enumerate(leaves)] for r in range(P)]
+        ys = [[[Y[l][g][c] for g in maps[sl][r] for c in range(bs)] for l, (bs, sl) in enumerate(leaves)] for r in range(P)]
+        return "cdot %s %s %s %s" % (kind, D, " ".join(fmt_rats(l) for v in xs for l in v), " ".join(fmt_rats(l) for v in ys for l in v))
+    # muxer: C children of one parent process
+    C = rng.choice([1, 2, 2, 3, 3, 4])
+    pn = [rng.randint(0, 6) for _ in range(S)]
+    children = []
+    for c in range(C):
+        ch = []
+        for s in range(S):
+            sub = [i for i in range(pn[s]) if rng.random() < (0.6 if C > 1 else 1.0)]
+            rng.shuffle(sub)                 # child numbering: child DOF j is parent DOF sub[j]
+            pm = list(range(len(sub)))
+            if rng.random() < 0.5:
+                rng.shuffle(pm)              # parent mirror: usually the identity, any permutation is allowed
+            ch.append((len(sub), pm, [sub[j] for j in pm]))
+        children.append(ch)
+    head = "%d %d %s %s" % (C, S, " ".join(map(str, pn)),
+                            " ".join("%d %s %s" % (n, fmt_list(pm), fmt_list(cm)) for ch in children for n, pm, cm in ch))
+    if rng.random() < 0.5:
+        srcs = [[[rand_rat(rng) for _ in range(ch[sl][0] * bs)] for bs, sl in leaves] for ch in children]
+        return "cmuxjoin %s %s %s" % (kind, head, " ".join(fmt_rats(l) for v in srcs for l in v))
+    src = [[rand_rat(rng) for _ in range(pn[sl] * bs)] for bs, sl in leaves]
+    return "cmuxsplit %s %s %s" % (kind, head, " ".join(fmt_rats(l) for l in src))
+
+
 def gen_cases(rng, count):
     cases = []
     for _ in range(count):
+        if rng.random() < 0.3:
+            cases.append(gen_composite_case(rng))
+            continue
         k = rng.random()
         bs = rng.choice([1, 1, 1, 2, 3])
         if k < 0.12:
@@ -243,6 +351,14 @@ CORPUS = [
     "dot 1 5 3 3 0 1 2 3 1 0 3 2 4 0 2 1 2 0 1 2 1 0 2 2 1 1 0 2 1 0 2 0 1 1 1 1 1 3 6/1 2/1 -1/1 3 2/1 6/1 4/1 2 9/1 6/1 3 1/1 3/1 5/1 3 3/1 1/1 7/1 2 2/1 1/1",
     "sync1 1 2 1 2 1 0 0 0 2 3/1 4/1",
     "dot 1 2 2 1 0 1 1 0 0 1 2/1 1 3/1 1 5/1 1 7/1",
+    # composite kinds: nested / 3- and 4-field tuples, power vectors, muxer join/split with >= 2 children
+    "cmuxjoin nest 3 4 5 4 0 0 4 4 3 0 2 1 4 3 0 4 1 3 3 2 1 0 3 0 3 2 0 0 0 0 0 0 4 4 0 1 2 3 4 4 2 3 0 3 3 1 2 0 3 0 3 1 0 0 0 0 0 0 3 3 2 1 0 3 4 0 2 3 3 1 0 2 3 0 1 2 0 0 0 0 0 0 8 -2/1 40/1 4/1 0/1 29/7 2/1 -39/2 12/1 8 3/1 3/1 4/1 -3/1 26/5 -9/1 3/1 6/1 3 6/1 3/1 -6/1 0 0 8 27/7 -7/1 3/1 2/1 5/1 -8/1 -3/1 -8/1 8 0/1 6/1 3/4 -5/1 0/1 0/1 29/2 3/2 3 -6/1 0/1 0/1 0 0 6 11/1 6/1 4/1 11/1 1/1 7/1 6 -16/1 39/7 -3/1 -5/1 6/1 15/2 3 39/1 4/1 -1/1 0 0",
+    "cmuxsplit t4 4 4 5 6 1 4 4 4 3 1 2 0 4 4 2 3 0 4 4 0 1 2 3 4 2 0 4 1 0 0 0 1 1 0 1 0 3 3 0 1 2 3 4 2 3 2 2 0 1 2 5 3 0 0 0 3 3 0 1 2 3 3 2 0 0 0 0 5 5 0 1 2 3 4 5 2 0 1 5 3 1 1 0 1 0 3 3 2 0 1 3 2 0 3 2 2 0 1 2 0 3 4 4 0 1 2 3 4 0 2 3 5 1 1 0 1 0 3 3 1 0 2 3 0 1 2 5 5/1 -9/1 -1/1 -3/7 -1/3 12 24/7 11/4 -9/1 0/1 -14/5 -7/1 0/1 -4/1 3/1 2/1 -8/1 6/1 1 29/8 4 -18/7 -4/1 7/1 37/3",
+    "cmuxjoin t3 3 3 2 6 5 2 2 1 0 2 1 0 4 4 0 1 2 3 4 0 2 4 3 4 4 1 2 3 0 4 0 2 4 3 2 2 0 1 2 1 0 3 3 0 1 2 3 5 3 0 2 2 0 1 2 3 2 0 0 0 4 4 0 1 2 3 4 4 1 5 3 3 3 0 2 1 3 3 2 4 4 -6/1 29/1 8/1 1/1 4 0/1 -7/1 -7/1 0/1 12 -2/1 -1/1 -5/1 -6/1 0/1 3/1 -32/7 -7/4 1/1 -7/1 -9/1 -9/1 4 -3/1 25/1 0/1 -17/5 3 -33/7 -1/2 0/1 6 1/1 7/1 6/1 -5/1 -6/1 2/1 0 4 0/1 -4/1 16/1 -9/1 9 19/3 0/1 23/2 15/1 -17/3 0/1 7/1 8/1 -2/1",
+    "csync0 t3 4 3 8 11 6 4 3 4 7 5 2 0 9 3 2 3 1 3 2 5 3 6 1 2 3 7 8 9 4 2 3 4 0 6 1 3 0 6 2 5 6 4 5 0 7 1 9 3 3 5 2 4 0 3 4 5 5 9 2 10 6 5 3 2 3 5 3 3 3 0 1 3 1 1 2 0 1 2 2 3 0 2 0 1 2 0 1 1 2 3 0 1 1 2 0 1 3 0 2 1 2 1 5 2 0 1 2 3 2 0 1 3 5 3 0 2 0 1 3 2 1 2 2 1 5 2 1 0 3 3 3 5 1 2 2 1 5 3 0 1 2 1 3 1 4 5 3 5 3 4 2 2 0 0 2 5 1 2 2 5 2 2 0 3 2 3 3 1 0 2 4 0 3 1 2 0 0 3 1 2 3 1 0 2 0 1 1 2 3 1 2 1 0 2 1 0 3 1 0 2 3 0 2 1 3 1 2 0 3 0 2 1 8 -7/1 0/1 -6/1 37/8 -7/1 6/1 1/2 27/7 2 31/5 0/1 9 -22/5 36/1 5/1 -6/7 -7/2 35/3 5/1 0/1 -24/5 6 -35/3 -5/1 -3/1 0/1 0/1 5/1 6 2/1 4/1 5/2 -6/1 -1/1 34/7 12 0/1 -1/1 -1/2 -9/2 13/2 -21/5 34/1 0/1 5/1 0/1 -7/2 8/1 12 3/1 -4/1 5/1 -1/7 21/1 2/1 9/1 -7/1 -1/1 0/1 -9/1 -5/1 6 8/1 -4/1 -17/1 -1/1 -4/1 5/7 9 2/3 -23/8 -25/1 -2/1 -5/4 4/1 1/2 7/1 -2/1 8 8/1 2/1 -17/8 0/1 0/1 9/1 -37/8 -1/5 5 6/1 0/1 0/1 -7/1 5/1 9 6/1 1/1 8/1 31/4 19/8 -3/1 4/1 0/1 26/7",
+    "csync1 nest 6 4 8 5 12 14 1 0 3 0 1 2 2 8 10 3 11 5 0 0 0 3 9 1 3 3 12 9 5 2 4 2 1 3 3 5 6 7 3 2 8 12 2 3 5 1 4 0 4 2 6 8 10 3 7 6 1 0 2 11 2 4 13 10 7 3 0 0 2 0 4 4 1 3 7 4 1 1 0 0 0 1 1 2 0 0 0 0 1 2 2 0 0 0 1 0 2 3 0 0 0 2 0 1 1 0 0 0 1 2 2 4 0 0 0 1 3 2 0 0 0 2 0 2 2 5 0 0 0 2 2 3 3 0 0 0 1 1 1 4 0 0 0 2 2 1 1 0 2 1 0 2 1 0 2 0 1 2 1 0 1 0 2 -9/1 -36/1 2 -7/1 -2/1 3 -9/1 -11/2 5/1 6 -8/1 7/1 -3/1 -16/7 -9/1 -5/1 3 -8/1 -4/1 6/7 0 0 0 9 11/4 4/1 -3/1 23/7 1/1 -5/1 8/1 7/1 -9/1 3 -11/4 0/1 5/2 4 21/2 -7/1 2/1 0/1 4 7/3 -5/2 1/2 19/3 1 0/1 9 9/1 -13/2 5/1 -17/2 -3/7 6/1 4/1 0/1 -3/1 3 -2/1 4/1 -31/5 4 -3/1 2/1 0/1 0/1 4 6/1 3/1 -9/1 23/2 1 -5/7 0 4 35/2 11/2 -8/1 -33/1 6 3/1 30/1 -6/1 36/5 -5/1 17/3 6 3/1 -4/1 -3/1 -5/1 -31/4 -5/1 0 6 0/1 -1/1 18/7 0/1 -1/1 0/1 4 -1/1 -4/1 -14/3 2/1 0 0 0 6 -8/1 3/1 -8/1 -7/1 0/1 1/4 4 0/1 0/1 -36/5 -6/1",
+    "cdot p3 4 1 4 4 1 0 2 3 3 0 2 3 2 1 2 2 1 2 3 3 2 0 2 2 2 0 2 1 3 3 2 1 3 2 1 1 3 1 1 0 3 2 1 0 3 1 1 1 3 2 1 0 0 2 0 1 3 1 1 1 0 2 0 1 2 2 1 0 4 3/5 0/1 5/1 0/1 4 4/1 0/1 22/7 9/1 4 0/1 16/5 -5/1 -3/1 3 0/1 5/1 0/1 3 0/1 22/7 9/1 3 16/5 -5/1 -3/1 2 3/5 5/1 2 4/1 22/7 2 0/1 -5/1 2 3/5 5/1 2 4/1 22/7 2 0/1 -5/1 4 -9/1 16/7 -7/1 -3/1 4 0/1 18/5 0/1 0/1 4 5/1 13/5 27/8 -8/1 3 16/7 -7/1 -3/1 3 18/5 0/1 0/1 3 13/5 27/8 -8/1 2 -9/1 -7/1 2 0/1 0/1 2 5/1 27/8 2 -9/1 -7/1 2 0/1 0/1 2 5/1 27/8",
+    "csync0 t4 5 4 7 7 7 10 1 0 2 2 3 4 2 6 3 1 2 0 2 2 6 0 0 2 3 5 3 8 9 4 1 0 2 5 4 4 0 2 6 5 2 3 6 5 5 1 0 3 4 0 4 3 4 2 0 2 1 5 3 0 2 6 3 0 6 1 3 3 5 1 1 7 4 1 1 0 0 1 2 0 4 1 0 0 2 2 3 0 2 1 0 0 2 1 0 0 3 1 0 0 2 2 0 0 4 4 2 0 1 0 2 0 1 0 3 1 1 0 1 0 0 2 1 1 0 1 1 0 0 1 1 0 1 0 0 4 0 1 0 0 2 2 1 0 3 1 0 0 2 0 1 0 4 1 0 0 1 3 0 1 1 0 0 1 3 0 4 4 1 2 0 1 0 0 1 1 2 0 1 0 0 0 1 2 0 2 0 2 0 2 1 2 0 2 3 2 0 4 2 1 0 0 1 1 0 1 2 2 0 0 2 0 1 0 0 1 0 0 2 0 2 0 3 1 0 0 1 0 0 4 1 0 2 3 4 0 1 2 3 4 3 0 2 1 4 1 2 0 3 4 3 2 1 0 1 5/1 4 0/1 8/7 8/1 8/1 4 2/1 -28/1 -27/8 0/1 2 6/1 -5/4 2 0/1 2/1 0 2 -31/2 3/1 3 3/1 39/1 2/1 1 1/1 4 7/4 0/1 4/1 3/1 4 2/1 29/7 7/5 -5/1 2 36/1 0/1 5 9/1 -9/1 35/4 8/1 3/2 0 4 -22/5 7/1 -5/1 -3/1 2 -5/1 0/1 3 2/1 -17/4 -14/1 6 3/1 0/1 1/1 9/1 -4/1 -12/7 3 0/1 7/1 -13/3 1 -4/7",
 ]
 
 
@@ -322,10 +438,100 @@ def read_vecs_out(out, tag, sizes):
     return vs
 
 
+def composite_oracle(op, c, out):
+    kind = c.tok()
+    leaves = KINDS[kind]
+    L = len(leaves)
+    if op in ("cmuxjoin", "cmuxsplit"):
+        C, S = c.nat(), c.nat()
+        pn = [c.nat() for _ in range(S)]
+        ch = [[(c.nat(), c.lst(), c.lst()) for _ in range(S)] for _ in range(C)]
+        for cc in ch:
+            for n, pm, cm in cc:
+                if len(pm) != len(cm) or sorted(pm) != list(range(n)):
+                    return None          # not a consistent parent/child numbering (not generated)
+        if is_abnormal(out):
+            return "%s with consistent mirrors ended with %s" % (op, out)
+        if op == "cmuxjoin":
+            srcs = [[c.rats() for _ in range(L)] for _ in range(C)]
+            res = read_vecs_out(out, "V", [pn[sl] * bs for bs, sl in leaves])
+            for l, (bs, sl) in enumerate(leaves):
+                exp = [Fraction(0)] * (pn[sl] * bs)
+                for k in range(C):                       # every child entry exactly once
+                    n, pm, cm = ch[k][sl]
+                    for j, i in zip(pm, cm):
+                        for b in range(bs):
+                            exp[i * bs + b] += srcs[k][l][j * bs + b]
+                if res[l] != exp:
+                    return "join: parent component %d = %s, sum over the children gives %s" % (l, res[l][:8], exp[:8])
+            return None
+        src = [c.rats() for _ in range(L)]
+        res = read_vecs_out(out, "V", [ch[k][sl][0] * bs for k in range(C) for bs, sl in leaves])
+        for k in range(C):
+            for l, (bs, sl) in enumerate(leaves):
+                n, pm, cm = ch[k][sl]
+                exp = [Fraction(0)] * (n * bs)
+                for j, i in zip(pm, cm):
+                    for b in range(bs):
+                        exp[j * bs + b] = src[l][i * bs + b]
+                if res[k * L + l] != exp:
+                    return "split: child %d component %d = %s, restriction of the parent vector is %s" % (k, l, res[k * L + l][:8], exp[:8])
+        return None
+    P, S = c.nat(), c.nat()
+    Gs = [c.nat() for _ in range(S)]
+    maps = [[c.lst() for _ in range(S)] for _ in range(P)]          # maps[r][s]
+    nbrs = []
+    for _ in range(P):
+        nn = c.nat()
+        nbrs.append([(c.nat(), [c.lst() for _ in range(S)]) for _ in range(nn)])
+    for s in range(S):
+        if not decomp_wf(Gs[s], [maps[r][s] for r in range(P)], [[(q, ms[s]) for q, ms in nbrs[r]] for r in range(P)]):
+            return None
+    if is_abnormal(out):
+        return "%s on a consistent decomposition ended with %s" % (op, out)
+    sharers = [[[r for r in range(P) if g in maps[r][s]] for g in range(Gs[s])] for s in range(S)]
+    sizes = [len(maps[r][sl]) * bs for r in range(P) for bs, sl in leaves]
+    if op in ("csync0", "csync1"):
+        for _ in range(P):
+            c.lst()
+        vs = [[c.rats() for _ in range(L)] for _ in range(P)]
+        res = read_vecs_out(out, "V", sizes)
+        for r in range(P):
+            for l, (bs, sl) in enumerate(leaves):
+                for i, g in enumerate(maps[r][sl]):
+                    for k in range(bs):
+                        contrib = [vs[q][l][maps[q][sl].index(g) * bs + k] for q in sharers[sl][g]]
+                        exp = sum(contrib) if op == "csync0" else sum(contrib) / len(contrib)
+                        if res[r * L + l][i * bs + k] != exp:
+                            return "%s: patch %d component %d dof %d comp %d = %s, expected %s over sharers %s" % (
+                                op, r, l, i, k, res[r * L + l][i * bs + k], exp, sharers[sl][g])
+        return None
+    if op == "cdot":
+        xs = [[c.rats() for _ in range(L)] for _ in range(P)]
+        ys = [[c.rats() for _ in range(L)] for _ in range(P)]
+        X, Y = {}, {}
+        for r in range(P):
+            for l, (bs, sl) in enumerate(leaves):
+                for i, g in enumerate(maps[r][sl]):
+                    for k in range(bs):
+                        for V, vv in ((X, xs), (Y, ys)):
+                            if V.setdefault((l, g, k), vv[r][l][i * bs + k]) != vv[r][l][i * bs + k]:
+                                return None
+        exp = sum(X[key] * Y[key] for key in X)
+        o = Tk(out)
+        if o.tok() != "D":
+            raise ValueError("tag")
+        got = vlib.parse_frac(o.tok())
+        return None if got == exp else "global dot %s, undecomposed vectors give %s" % (got, exp)
+    return None
+
+
 def oracle(case, out):
     c = Tk(case)
     op = c.tok()
     try:
+        if op in ("csync0", "csync1", "cdot", "cmuxjoin", "cmuxsplit"):
+            return composite_oracle(op, c, out)
         if op in ("mgather", "mscatter"):
             bs, size, mir = c.nat(), c.nat(), c.lst()
             alpha = vlib.parse_frac(c.tok()) if op == "mscatter" else None
@@ -429,6 +635,10 @@ def oracle(case, out):
 def _shape(case):
     c = Tk(case)
     op = c.tok()
+    if op in ("csync0", "csync1", "cdot", "cmuxjoin", "cmuxsplit"):
+        kind = c.tok()
+        n = c.nat()           # patches or children
+        return op, "kind:" + kind, n, len(KINDS[kind]), True
     if op in ("mgather", "mscatter"):
         bs, size, mir = c.nat(), c.nat(), c.lst()
         return op, bs, None, len(mir), None
@@ -449,6 +659,8 @@ def nontrivial(case):
         return False
     if P is None:
         return share >= 2
+    if isinstance(bs, str):   # composite: >= 3 components (or nested) and >= 2 children / >= 3 patches
+        return share >= 3 and P >= (2 if op.startswith("cmux") else 3)
     return P >= 3 and share >= 3 and wf
 
 
@@ -457,6 +669,8 @@ def describe(case):
         op, bs, P, share, wf = _shape(case)
     except Exception:
         return ["op:?"]
+    if isinstance(bs, str):
+        return ["op:" + op, bs, ("children:%d" if op.startswith("cmux") else "patches:%d") % P]
     keys = ["op:" + op, "bs:%d" % bs]
     if P is not None:
         keys += ["patches:%s" % (P if P <= 6 else "7-16"), "max-sharers:%s" % (share if share <= 4 else "5+"),
@@ -505,6 +719,9 @@ def mpi_cases(tier, seed, hook):
             if n in LAYERED and space != "q1-3d":
                 h3 = rng.randint(1, 10 ** 6) if hook else 0
                 cases.append("mpi %s %s %d %d %d %d auto %s" % (space, mesh, top, solve, n, h3, layered_spec(top, n)))
+            elif space == "q1-3d" and n % 2 == 0:
+                h3 = rng.randint(1, 10 ** 6) if hook else 0
+                cases.append("mpi %s %s %d %d %d %d auto %d_1:%d_0" % (space, mesh, top, solve, n, h3, top, 1 if n == 2 else 2))
         # another partitioner for the same process count
         for n in ns:
             if n in (4, 16) and space == "q1":
@@ -615,7 +832,7 @@ def make_mpi_oracle(results):
             return "ran on %d ranks" % n
         for k in sorted(o):
             a, b = o[k], ref[k]
-            if k in ("ndofs", "x_blk_ndofs"):
+            if k in ("ndofs", "x_blk_ndofs", "x_tup3_ndofs"):
                 if a != b:
                     return "%s: %s on %d ranks, %s on one" % (k, a, n, b)
             elif k.startswith("x_"):
@@ -674,7 +891,7 @@ def main(argv):
     extra = {}
     only = os.environ.get("C13_ONLY", "")     # debugging aid: "inproc" or "mpi"
     if (replay_case is None or not replay_case.startswith("mpi ")) and only in ("", "inproc"):
-        cases = [replay_case] if replay_case else CORPUS + gen_cases(rng, 8000 if args.tier == "quick" else 80000)
+        cases = [replay_case] if replay_case else CORPUS + gen_cases(rng, 12000 if args.tier == "quick" else 80000)
         streams.append(vlib.Stream("inproc", cases, [binary], vlib.driver_cmd(PROP), oracle=oracle, nontrivial=nontrivial,
                                    describe=describe, signature=signature, canon=canon))
     if (replay_case is None or replay_case.startswith("mpi ")) and only in ("", "mpi"):
@@ -692,17 +909,18 @@ def main(argv):
         jpath = os.path.join(vlib.BUILD, "tmp", "c13-mpi-%d.json" % os.getpid())
         with open(jpath, "w") as f:
             json.dump(results, f)
-        orders, share3, exact_keys = 0, 0, 0
+        orders, share3, exact_keys, muxers = 0, 0, 0, 0
         for c, o in results.items():
             try:
                 d = parse_mpi_out(o)
                 orders += int(d["h3_orders"])
+                muxers += int(d.get("p_mux3_used", 0))
                 share3 += 1 if (int(d["nranks"]) >= 3 and int(d["p_share3"]) > 0) else 0
                 exact_keys += sum(1 for k in d if k.startswith("x_")) if int(d["nranks"]) > 1 else 0
             except (ValueError, KeyError):
                 pass
         extra.update({"h3_hook_compiled_in": hook, "h3_distinct_processing_orders": orders,
-                      "mpi_runs": len(results), "mpi_runs_with_dof_shared_by_3_ranks": share3,
+                      "mpi_runs": len(results), "mpi_tuple3_muxers_exercised": muxers, "mpi_runs_with_dof_shared_by_3_ranks": share3,
                       "mpi_bit_exact_comparisons": exact_keys,
                       "mpi_process_counts": sorted({int(c.split()[5]) for c in results})})
 
